@@ -37,6 +37,26 @@ CLAIMS["C12"] = (
     "Assumes CPython dataclass field order and dict insertion order; template evaluator handles the string-builder idioms listed in DESIGN.md Appendix C.",
     "DESIGN.md §3 C12",
 )
+CLAIMS["C01"] = (
+    "dependence analysis of the digest input (ordered contribution list vs required/forbidden source table) + encoding decodability + decision tree of is_equal",
+    "The ordered contribution list of the string hashed into content_id is recovered from ASTNode.__post_init__ and compared with the property's "
+    "own table: class identity, whole field names, type tag and whole rendered value of exactly the comparable properties (flags resolved "
+    "against the accessor signature, sorted), field/index/content_id of every child (sorted); nothing from origins, ids, registry, time. "
+    "Unique decodability and canonical rendering of the value segment are decided (two known findings). content_id is stored once; is_equal "
+    "is type identity and content_id equality. Decides these necessary conditions for every node model; hash collisions are not decided.",
+    "Assumes blake2b injective on compared inputs and str() of user property types injective; generated accessors decided via C12's template analysis.",
+    "DESIGN.md §3 C01",
+)
+CLAIMS["C05"] = (
+    "traversal-schema calculus over worklist algorithms (discipline, sibling order, emission order) + truth table of the loop body over filter/prune outcomes + template analysis of the child enumeration",
+    "dfs/bfs are recognised as worklist algorithms; take side vs put side, reversal of the child sequence under each value of bottom_up and the "
+    "emission buffer are derived from the container operations and looked up in a fixed calculus (pre-order, post-order, level order); seeds are "
+    "the children of the start node; every record is (child, enumerated parent, field, index) of one enumeration tuple; the loop body is decided as "
+    "a truth table over filter/prune outcomes; gather's filter formula and delegation are decided; the generated child enumeration yields present "
+    "children only, by identity, indexed from 0 in declaration order. Holds for every tree and predicate because these facts do not depend on the tree.",
+    "Assumes stdlib list/deque semantics; a traversal rewritten outside the worklist idiom is reported as analysis-incomplete (exit 2), never as a pass.",
+    "DESIGN.md §3 C05",
+)
 PENDING = "check not built yet (work in progress; see DESIGN.md for the planned static rules)"
 
 checks = []
